@@ -380,6 +380,62 @@ func c20Cadence(ev *vlib.Evidence, idx int) {
 	}
 }
 
+// c20CadenceSlowPool: "a keep-alive is sent every configured interval" also
+// when the pool takes most of an interval to answer. The count is compared
+// with what a plain ticker-driven loop doing the same waiting achieves on this
+// machine at the same time (a reference measurement, not a wall-clock bound).
+func c20CadenceSlowPool(ev *vlib.Evidence, idx int) {
+	c20Mu.Lock()
+	defer c20Mu.Unlock()
+	interval := time.Duration(150+50*(idx%3)) * time.Millisecond
+	latency := interval * 6 / 10
+	node := &vlib.FakeEth{ID: vlib.NewIdentity("c20self", 0).NodeID, NodeKind: ethnode.Geth, Full: true}
+	sp := &scriptedPool{}
+	sp.nextUpdate = func(n int, req pool.UpdateRequest) (*pool.UpdateResponse, error) {
+		time.Sleep(latency)
+		return &pool.UpdateResponse{}, nil
+	}
+	a := &agent.Agent{EthNode: node, UpdateInterval: interval}
+	if err := a.Start(sp); err != nil {
+		ev.Violate("cadence:start-failed", map[string]interface{}{"err": err.Error()})
+		return
+	}
+	var ref int64
+	stopRef := make(chan struct{})
+	refDone := make(chan struct{})
+	go func() {
+		defer close(refDone)
+		tk := time.NewTicker(interval)
+		defer tk.Stop()
+		for {
+			select {
+			case <-tk.C:
+				time.Sleep(latency)
+				atomic.AddInt64(&ref, 1)
+			case <-stopRef:
+				return
+			}
+		}
+	}()
+	time.Sleep(20 * interval)
+	a.Stop()
+	close(stopRef)
+	a.Wait()
+	<-refDone
+	n := sp.numUpdates() - 1 // minus the one sent by Start
+	rc := int(atomic.LoadInt64(&ref))
+	ev.Case(fmt.Sprintf("cadence-slow-pool interval=%s latency=%s idx=%d", interval, latency, idx), true)
+	ev.Count("cadence-slow-pool-keepalives", int64(n))
+	ev.Count("cadence-slow-pool-reference-ticks", int64(rc))
+	if rc < 10 {
+		ev.Inconclusive("machine-too-slow-for-cadence")
+		return
+	}
+	if n*10 < rc*8-10 {
+		ev.Violate("cadence:keep-alives-slower-than-the-configured-interval", map[string]interface{}{"interval": interval.String(), "pool_latency": latency.String(), "keepalives": n, "reference_ticker_loop": rc, "window": (20 * interval).String()})
+	}
+}
+
 // c20LongRun: a healthy agent keeps its loop for longer than any per-call
 // timeout of the agent package (10 s) against a pool that honours contexts.
 func c20LongRun(ev *vlib.Evidence) {
@@ -521,7 +577,7 @@ func tailStr(s string, n int) string {
 
 func TestC20(t *testing.T) {
 	ev := vlib.NewEvidence("C20", "exploration",
-		"real agent.Agent with a scripted pool: random sequences of Start (pool healthy / failing at connect / failing at the first keep-alive), Stop (with the outcome collected by Wait or left uncollected), a keep-alive failing while running, forced UpdatePeers; the number of live keep-alive loops is observed directly after every step by counting agent.(*Agent).serveUpdates frames in a dump of all goroutine stacks; concurrent Starts; keep-alive cadence (count per window vs the logical ticker bound); an 11.5 s run against a pool that honours request contexts; the built vipnode binary run with --update-interval in {4s,5s,6s,60s,119s,120s,121s,10m,junk,-1s,0} against an in-memory pool and a fake node, accepted runs stopped with SIGINT; non-trivial = a sequence with at least one successful start and a refused second start or a restart; distinct = distinct traces")
+		"real agent.Agent with a scripted pool: random sequences of Start (pool healthy / failing at connect / failing at the first keep-alive), Stop (with the outcome collected by Wait or left uncollected), a keep-alive failing while running, forced UpdatePeers; the number of live keep-alive loops is observed directly after every step by counting agent.(*Agent).serveUpdates frames in a dump of all goroutine stacks; concurrent Starts; keep-alive cadence (count per window vs the logical ticker bound; against a pool that takes 60 % of the interval to answer, compared with a reference ticker loop doing the same waiting at the same time); an 11.5 s run against a pool that honours request contexts; the built vipnode binary run with --update-interval in {4s,5s,6s,60s,119s,120s,121s,10m,junk,-1s,0} against an in-memory pool and a fake node, accepted runs stopped with SIGINT; non-trivial = a sequence with at least one successful start and a refused second start or a restart; distinct = distinct traces")
 	ev.Assume("Stop is only called while a loop is running (Stop on an idle agent blocks by design of the API and is not part of the statement)")
 	for i := 0; i < vlib.Scale(300, 8000); i++ {
 		c20Sequence(ev, i)
@@ -534,6 +590,9 @@ func TestC20(t *testing.T) {
 	}
 	for i := 0; i < vlib.Scale(4, 20); i++ {
 		c20Cadence(ev, i)
+	}
+	for i := 0; i < vlib.Scale(2, 12); i++ {
+		c20CadenceSlowPool(ev, i)
 	}
 	cliDone := make(chan struct{})
 	go func() { c20CLI(ev); close(cliDone) }()
